@@ -145,8 +145,26 @@ func c19Exec(r *Run, line string) string {
 
 var c19Names = []string{"a", "ab", "abc", "rollapp", "rollappx", "x", "dym", "dymension", "z"}
 
+// c19RollappID draws a valid rollapp id; every length from the minimum up to the 50-character
+// maximum occurs (key builders append onto shared slices: capacity effects depend on the length)
 func c19RollappID(g *Rng) string {
-	return fmt.Sprintf("%s_%d-%d", c19Names[g.Intn(len(c19Names))], 1+g.Intn(3000), 1+g.Intn(12))
+	name := c19Names[g.Intn(len(c19Names))]
+	if g.Chance(60) {
+		n := 1 + g.Intn(42)
+		b := make([]byte, n)
+		for i := range b {
+			b[i] = byte('a' + g.Intn(26))
+		}
+		name = string(b)
+	}
+	id := fmt.Sprintf("%s_%d-%d", name, 1+g.Intn(3000), 1+g.Intn(12))
+	if len(id) > 50 {
+		id = id[len(id)-50:]
+		if id[0] < 'a' || id[0] > 'z' {
+			id = "a" + id[1:]
+		}
+	}
+	return id
 }
 
 func c19Bytes(g *Rng) []byte {
